@@ -154,10 +154,20 @@ def main():
                     traces.append(t)
             else:
                 reps = rng.randint(1, 3)
-                games_f = [[x * tiny for x in random_game(n, rng, cls)] for _ in range(reps)]
+                shape = rng.random()
+                if shape < 0.2:                      # additive games: the gap is closed from the start
+                    games_f = []
+                    for _ in range(reps):
+                        w = [rng.randint(0, 5) * (-1 if cls == "SAM" else 1) for _ in range(n)]      # in class for the computer used
+                        games_f.append([float(sum(w[i] for i in range(n) if c >> i & 1)) * tiny for c in range(2 ** n)])
+                elif shape < 0.4 and cls != "SAM":   # factory games with one owner: the gap closes before everything is revealed
+                    o = rng.randrange(n)
+                    games_f = [[float(bin(c).count("1") - 1) * tiny if c >> o & 1 else 0.0 for c in range(2 ** n)] for _ in range(reps)]
+                else:
+                    games_f = [[x * tiny for x in random_game(n, rng, cls)] for _ in range(reps)]
                 scale = scale_of([x for g in games_f for x in g])
                 M = max(abs(x) for g in games_f for x in g) or 1.0
-                max_steps = rng.randint(0, 3) if n == 3 else rng.randint(1, 2)
+                max_steps = rng.randint(0, 3) if n == 3 else (rng.randint(1, 2) if a.what == "best" else rng.choice([1, 2, 3, 5, 8]))
                 # the generator is called twice by the environment's constructor, then once per sampled game
                 counting = Counting([full_game(n, g) for g in [games_f[0], games_f[0]] + games_f])
                 ig = IncompleteCooperativeGame(n, computer(comp, r))
